@@ -79,11 +79,6 @@ def build(sh, normalize_kv=None, span_func=None, cls=None, evaluator=None, share
         w_ = o.weights
         w_[0] = w_[0] / 2.0
         o.weights = w_
-    if f["rat"] and not alt_repr and not share_kv and not edit_back and not by_setters:
-        # the weights assigned once more from a list of the caller's (same values): that list is scribbled over below as well
-        _W = [float(w) for w in o.weights]
-        o.weights = _W
-        _handed.append(_W)
     if not alt_repr and not share_kv:
         _handed.append(_P)
         if normalize_kv:
@@ -101,6 +96,16 @@ def build(sh, normalize_kv=None, span_func=None, cls=None, evaluator=None, share
                     for i in range(len(r)):
                         r[i] = 9.0e9
     return o
+
+
+def reassign_weights_from_scratch_list(o):
+    """``o.weights = w`` with the current values from a list of the caller's, which is then overwritten: the object must have
+    taken a copy.  (Not part of ``build``: it warms the caches of the object, which would hide defects that need cold caches.)"""
+    if getattr(o, "rational", False):
+        w_ = [float(x) for x in o.weights]
+        o.weights = w_
+        for i in range(len(w_)):
+            w_[i] = 9.0e9
 
 
 def project(o):
